@@ -92,7 +92,7 @@ func (ctx *Ctx) houdini(fn *ssa.Function, ct *Contract, work string) map[int][]*
 	}
 	dir := filepath.Join(work, "houdini-"+sanitize(fn.Name()))
 	os.MkdirAll(dir, 0o755)
-	for round := 0; round < 8; round++ {
+	for round := 0; round < 24; round++ {
 		vc := ctx.genFunc(fn, ct, cands)
 		// candidates whose evaluation fails (name not in scope, ...) are dropped outright
 		var sel []*Obligation
